@@ -175,7 +175,7 @@ Proof.
     match goal with |- context [(fix go (l : list ast) (st : state) {struct l} := _) es st] =>
       destruct ((fix go (l : list ast) (st : state) {struct l} := _) es st) as [[e1|vs] st1] end; cbn [fst snd] in L; destruct L as [L1 L2].
     + split; [exact L1 | apply L2; reflexivity].
-    + fin L1.
+    + destruct (vbounded (VList vs)); fin L1.
   - (* map *)
     assert (MAP: forall l st, clean st ->
        let r := (fix go (l : list (ast * ast)) (st : state) {struct l} : (eres + list (value * value)) * state :=
@@ -210,7 +210,7 @@ Proof.
     match goal with |- context [(fix go (l : list (ast * ast)) (st : state) {struct l} := _) kvs st] =>
       destruct ((fix go (l : list (ast * ast)) (st : state) {struct l} := _) kvs st) as [[e1|vs] st1] end; cbn [fst snd] in L; destruct L as [L1 L2].
     + split; [exact L1 | apply L2; reflexivity].
-    + fin L1.
+    + destruct (vbounded (VMap vs)); fin L1.
   - (* statements *)
     assert (ST: forall l last st, clean st ->
        good ((fix go (l : list ast) (last : value) (st : state) {struct l} : eres * state :=
